@@ -94,7 +94,9 @@ func (n not) Build(context Context) (string, []any, error) {
 	if err != nil {
 		return "", nil, err
 	}
-	return fmt.Sprintf("not (%s)", sub), args, nil
+	// a sub-expression over a missing value (no reference, no metadata revision yet, no move in the asset) is NULL in
+	// SQL, and so is its negation: the row would match neither the filter nor its $not. A row that does not match matches the negation.
+	return fmt.Sprintf("not coalesce((%s), false)", sub), args, nil
 }
 
 func Not(expr Builder) not {
